@@ -35,7 +35,7 @@ func runDeck(t *testing.T, prop, part string, k Knobs, nq, nt int, rule string, 
 
 // C01: latest-state reads match the sequential model.
 func TestVerifC01(t *testing.T) {
-	k := Knobs{Name: "C01", Units: 120, RangeKeys: true, Batches: true, Maint: true, Reopen: true, Ingest: true, Excise: true,
+	k := Knobs{Name: "C01", Units: 120, FlushGate: true, RangeKeys: true, Batches: true, Maint: true, Reopen: true, Ingest: true, Excise: true,
 		BigValues: true, ValueSep: true, AuditEvery: 6, NoAutoCompactionsPct: 15}
 	runDeck(t, "C01", "main", k, 300, 6000,
 		"Single-threaded histories of all write kinds (Set, Delete, DeleteSized, SingleDelete per contract, DeleteRange, Merge, LogData, range keys, "+
@@ -55,7 +55,7 @@ func TestVerifC02(t *testing.T) {
 
 // C03: snapshots are stable point-in-time views.
 func TestVerifC03(t *testing.T) {
-	k := Knobs{Name: "C03", Units: 130, RangeKeys: true, Snapshots: true, SnapAudit: true, Batches: true, Maint: true, Ingest: true, Excise: true,
+	k := Knobs{Name: "C03", Units: 130, FlushGate: true, RangeKeys: true, Snapshots: true, SnapAudit: true, Batches: true, Maint: true, Ingest: true, Excise: true,
 		Ratchet: true, Iters: true, IterBurst: 15, AuditEvery: 8, NoAutoCompactionsPct: 15}
 	runDeck(t, "C03", "main", k, 200, 4000,
 		"Histories with up to 4 snapshots opened at random points and read (Get of every key, full scans, positioning bursts) after every later "+
@@ -127,7 +127,7 @@ func TestVerifC15(t *testing.T) {
 
 // C36: ingest and excise behave like their logical equivalents.
 func TestVerifC36(t *testing.T) {
-	k := Knobs{Name: "C36", Units: 120, RangeKeys: true, Batches: true, Maint: true, Ingest: true, IngestHeavy: true, Excise: true, LongIters: true,
+	k := Knobs{Name: "C36", Units: 120, FlushGate: true, RangeKeys: true, Batches: true, Maint: true, Ingest: true, IngestHeavy: true, Excise: true, LongIters: true,
 		Snapshots: true, SnapAudit: true, BigValues: true, AuditEvery: 4, NoAutoCompactionsPct: 20}
 	runDeck(t, "C36", "main", k, 200, 4000,
 		"Histories dominated by Ingest (1-3 disjoint tables with points, merges, point and range tombstones, range keys; overlapping the memtable or "+
